@@ -27,17 +27,207 @@ Definition jrow_meets (o : sop) (e : jrow) : Prop :=
 
 Definition jrow_ok (e : jrow) : Prop :=
   match sop_of (jname e) with
-  | None => True
+  | None => True                      (* not in the specified class *)
   | Some o => jrow_meets o e
   end.
 
 Definition java_meets_spec (bad : list string) (tbl : list jrow) : Prop :=
   Forall (fun e => In (jname e) bad \/ jrow_ok e) tbl.
 
-(* a row listed as a known finding really is one: some operand tuple inside the side
-   condition on which the Java expression gives another value (decidable witness search
-   is done by the check; here: the stated witness) *)
-Definition jrow_refuted (e : jrow) (o : sop) (args : list Z) : Prop :=
-  sop_of (jname e) = Some o /\ forallb2_typed (fst (sop_sig o)) args = true /\ in_dom o args = true
-  /\ jsem args (jbody e) <> Some (spec o args)
-with_defs.
+(* ------------------------------------------------------------------ the side condition, decidable *)
+
+Fixpoint fits_tysb (tys : list fty) (l : list Z) : bool :=
+  match tys, l with
+  | [], [] => true
+  | t :: tys', z :: l' => fits_tyb t z && fits_tysb tys' l'
+  | _, _ => false
+  end.
+
+Definition fits_extrab (o : sop) (l : list Z) : bool :=
+  let a := a0 l in let b := a1 l in
+  match o with
+  | SIntPlusMod => int32b (a + b)
+  | SIntMinusMod => int32b (a - b)
+  | SIntTimesMod => int32b (a * b)
+  | SIntShiftUp | SIntShiftDn | SIntBit => (0 <=? b) && (b <? 32)
+  | CharNum => (0 <=? a) && (a <? 256)
+  | _ => true
+  end.
+
+Definition fits_javab (o : sop) (l : list Z) : bool :=
+  fits_tysb (fst (sop_sig o)) l && fits_tyb (snd (sop_sig o)) (spec o l) && fits_extrab o l.
+
+Lemma int32b_of z : int32 z -> int32b z = true.
+Proof. unfold int32, int32b. lia. Qed.
+
+Lemma fits_tyb_of t z : fits_ty t z -> fits_tyb t z = true.
+Proof. destruct t; cbn [fits_ty fits_tyb]; try reflexivity; try apply int32b_of; lia. Qed.
+
+Lemma fits_tysb_of tys l : Forall2 fits_ty tys l -> fits_tysb tys l = true.
+Proof.
+  induction 1 as [|t z tys l H _ IH]; cbn [fits_tysb]; [reflexivity|].
+  rewrite (fits_tyb_of _ _ H), IH. reflexivity.
+Qed.
+
+Lemma fits_extrab_of o l : fits_extra o l -> fits_extrab o l = true.
+Proof.
+  destruct o; cbn [fits_extra fits_extrab]; try reflexivity; try apply int32b_of; lia.
+Qed.
+
+Lemma fits_javab_of o l : fits_java o l -> fits_javab o l = true.
+Proof.
+  intros (H1 & H2 & H3). unfold fits_javab.
+  rewrite (fits_tysb_of _ _ H1), (fits_tyb_of _ _ H2), (fits_extrab_of _ _ H3). reflexivity.
+Qed.
+
+(* ------------------------------------------------------------------ finite domains *)
+
+(* exhaustive check of one row over ALL well-typed operand tuples (Bool 2, Char/Byte 256,
+   HInt 65536 values per operand) *)
+Definition jcheck_finite (o : sop) (e : jrow) : bool :=
+  forallb (fun args => implb (in_dom o args && fits_javab o args)
+                             (opt_is (jsem args (jbody e)) (spec o args)))
+          (all_args (jargs e)).
+
+Lemma jfinite_row_meets o e :
+  jrow_sig_ok o e = true -> forallb finite_ty (jargs e) = true -> jcheck_finite o e = true ->
+  jrow_meets o e.
+Proof.
+  intros Hs Hf Hc. split; [assumption|].
+  intros args Ht Hd Hj. unfold jcheck_finite in Hc. rewrite forallb_forall in Hc.
+  specialize (Hc args (all_args_complete _ _ Hf Ht)).
+  rewrite Hd, (fits_javab_of _ _ Hj) in Hc. cbn in Hc. apply opt_is_eq. assumption.
+Qed.
+
+(* ------------------------------------------------------------------ 32-bit lemmas *)
+
+Lemma wrap_S32_id z : -2147483648 <= z <= 2147483647 -> wrap S32 z = z.
+Proof. intro H. unfold wrap. lia. Qed.
+
+Lemma mul_int32_bound a b : int32 a -> int32 b ->
+  -4611686018427387904 <= a * b <= 4611686018427387904.
+Proof. unfold int32. intros Ha Hb. nia. Qed.
+
+Lemma shiftl_int32_bound a b : int32 a -> 0 <= b < 32 ->
+  -4611686018427387904 <= Z.shiftl a b <= 4611686018427387904.
+Proof.
+  unfold int32. intros Ha Hb. rewrite Z.shiftl_mul_pow2 by lia.
+  assert (H1 : 0 < 2 ^ b) by (apply Z.pow_pos_nonneg; lia).
+  assert (H2 : 2 ^ b <= 2 ^ 31) by (apply Z.pow_le_mono_r; lia).
+  change (2 ^ 31) with 2147483648 in H2. nia.
+Qed.
+
+Lemma testbit_int32_high a m : int32 a -> 31 <= m -> Z.testbit a m = (a <? 0).
+Proof.
+  unfold int32. intros Ha Hm. destruct (Z.ltb_spec a 0) as [Hn|Hp].
+  - apply Z.bits_above_log2_neg; [lia|].
+    destruct (Z.eq_dec a (-1)) as [->|Hne]; [cbn; lia|].
+    assert (Z.log2 (Z.pred (- a)) < 31); [|lia].
+    apply Z.log2_lt_pow2; lia.
+  - destruct (Z.eq_dec a 0) as [->|Hne]; [apply Z.bits_0|].
+    apply Z.bits_above_log2; [lia|].
+    assert (Z.log2 a < 31); [|lia]. apply Z.log2_lt_pow2; lia.
+Qed.
+
+(* bit i of a 32-bit two's complement value, written  n & (1 << i)  in Java *)
+Lemma land_bit32_zero a i : int32 a -> 0 <= i < 32 ->
+  (Z.land a (wrap S32 (Z.shiftl 1 i)) =? 0) = negb (Z.testbit a i).
+Proof.
+  intros Ha Hi.
+  assert (Hs : Z.shiftl 1 i = 2 ^ i) by (rewrite Z.shiftl_1_l; reflexivity).
+  rewrite Hs.
+  destruct (Z.eq_dec i 31) as [->|Hne].
+  - change (wrap S32 (2 ^ 31)) with (-2147483648).
+    rewrite (testbit_int32_high a 31 Ha) by lia.
+    destruct (Z.ltb_spec a 0) as [Hn|Hp]; cbn [negb].
+    + apply Z.eqb_neq. intro H0.
+      assert (Hb : Z.testbit (Z.land a (-2147483648)) 31 = false) by (rewrite H0; apply Z.bits_0).
+      rewrite Z.land_spec in Hb. rewrite (testbit_int32_high a 31 Ha) in Hb by lia.
+      replace (a <? 0) with true in Hb by (symmetry; apply Z.ltb_lt; lia).
+      cbn in Hb. discriminate.
+    + apply Z.eqb_eq. apply Z.bits_inj'. intros m Hm. rewrite Z.land_spec, Z.bits_0.
+      destruct (Z.ltb_spec m 31) as [Hlt|Hge].
+      * replace (Z.testbit (-2147483648) m) with false; [apply andb_false_r|].
+        symmetry. change (-2147483648) with (- 2 ^ 31).
+        rewrite Z.bits_opp by lia. rewrite <- Z.sub_1_r.
+        replace (Z.testbit (2 ^ 31 - 1) m) with true; [reflexivity|].
+        symmetry. change (2 ^ 31 - 1) with (Z.ones 31). apply Z.ones_spec_low. lia.
+      * rewrite (testbit_int32_high a m Ha) by lia.
+        replace (a <? 0) with false by (symmetry; apply Z.ltb_ge; lia). reflexivity.
+  - assert (Hr : wrap S32 (2 ^ i) = 2 ^ i).
+    { apply wrap_S32_id. split; [assert (0 < 2 ^ i) by (apply Z.pow_pos_nonneg; lia); lia|].
+      assert (2 ^ i < 2 ^ 31) by (apply Z.pow_lt_mono_r; lia). change (2 ^ 31) with 2147483648 in *. lia. }
+    rewrite Hr.
+    destruct (Z.testbit a i) eqn:Hb; cbn [negb].
+    + apply Z.eqb_neq. intro H0.
+      assert (Hc : Z.testbit (Z.land a (2 ^ i)) i = false) by (rewrite H0; apply Z.bits_0).
+      rewrite Z.land_spec, Hb, Z.pow2_bits_true in Hc by lia. discriminate.
+    + apply Z.eqb_eq. apply Z.bits_inj'. intros m Hm. rewrite Z.land_spec, Z.bits_0.
+      rewrite Z.pow2_bits_eqb by lia.
+      destruct (Z.eqb_spec i m) as [<-|Hd]; [rewrite Hb; reflexivity|apply andb_false_r].
+Qed.
+
+(* ------------------------------------------------------------------ tactics *)
+
+Lemma jrow_ok_none e : sop_of (jname e) = None -> jrow_ok e.
+Proof. unfold jrow_ok. intros ->. exact I. Qed.
+
+Lemma jrow_ok_some e o : sop_of (jname e) = Some o -> jrow_meets o e -> jrow_ok e.
+Proof. unfold jrow_ok. intros ->. exact (fun H => H). Qed.
+
+Ltac inv_fits H :=
+  repeat match type of H with
+  | Forall2 _ [] _ => clear H
+  | Forall2 fits_ty (_ :: _) (_ :: _) =>
+      let Hz := fresh "Hf" in let Hl := fresh "Hl" in
+      inversion H as [|? ? ? ? Hz Hl]; subst; clear H; rename Hl into H; cbn [fits_ty] in Hz
+  end.
+
+(* unfold the Java evaluator on a concrete expression, leaving Z and bool operations *)
+Ltac jcev :=
+  cbv [jsem jdefd jev jty_of jwrap jpromote jjoin jbits jis_cmp jis_shift jis_bitop jis_num jty_eqb
+       jcmp_ev in_jrange jmin jmax nth List.length Nat.ltb Nat.leb
+       spec in_dom a0 a1 a2 red div_ok smin smax].
+
+Ltac jhyps :=
+  cbv [fits_extra sop_sig snd fst fits_ty spec a0 a1 a2 red nth int32 in_dom div_ok smin smax] in *.
+
+Definition specd_j (e : jrow) : bool :=
+  match sop_of (jname e) with Some _ => true | None => false end.
+
+Lemma java_meets_spec_filter bad tbl :
+  Forall (fun e => In (jname e) bad \/ jrow_ok e) (filter specd_j tbl) -> java_meets_spec bad tbl.
+Proof.
+  intro H. unfold java_meets_spec. rewrite Forall_forall in *. intros e He.
+  destruct (specd_j e) eqn:Hs.
+  - apply H. apply filter_In. split; assumption.
+  - right. apply jrow_ok_none. unfold specd_j in Hs. destruct (sop_of (jname e)); [discriminate|reflexivity].
+Qed.
+
+(* ------------------------------------------------------------------ coverage *)
+
+(* every builtin of foamBValInfoTable has a row in the Java table or is beyond its end
+   (gj0BCallBValInfo then answers GJ_NotImpl); a specified builtin has a row that embeds *)
+Fixpoint jlookup (n : string) (t : list jrow) : option jrow :=
+  match t with
+  | [] => None
+  | r :: t' => if String.eqb (jname r) n then Some r else jlookup n t'
+  end.
+
+Definition is_opaque (e : jexp) : bool := match e with JOpaque _ => true | _ => false end.
+Definition is_notimpl (e : jexp) : bool := match e with JNotImpl => true | _ => false end.
+
+Definition jcovered (tbl : list jrow) (n : string) : bool :=
+  match sop_of n with
+  | Some _ => match jlookup n tbl with
+              | Some r => negb (is_opaque (jbody r)) && negb (is_notimpl (jbody r))
+              | None => false
+              end
+  | None => true
+  end.
+
+Definition java_covers (tbl : list jrow) (names : list string) : Prop :=
+  Forall (fun n => jcovered tbl n = true) names.
+
+Lemma java_covers_of_b tbl names : forallb (jcovered tbl) names = true -> java_covers tbl names.
+Proof. unfold java_covers. rewrite Forall_forall, forallb_forall. auto. Qed.
